@@ -457,6 +457,10 @@ S4_MORE["C17"] = ("instrument_response.py under contract (contracts/instr.py; sp
                  "_remove_instrument_response transform the series' own samples with the published FFT length (its own length when none is published), multiply by one transfer "
                  "function, tell the inverse transform the same length, cut to the series' length and keep the time step, in a new series; an unknown transform is refused; "
                  "_differentiate / _integrate call the transform of that name on the caller's series and settings. Psd.__init__ / Psd._check_input under contract.")
+S4_MORE["C15"] += (" The twelve settings constructors on their executed bodies, base constructors inlined through super().__init__ (21 configurations): attrs lists exactly the constructor's "
+                  "parameters, once each; attribute p holds the content of argument p; no list, dictionary or array reachable from the new object is storage of an argument - hence "
+                  "nothing shared with callers, with default-argument objects or, through either, with another settings object (the structural obligations on the AST remain as a "
+                  "second witness).")
 for _k, _v in S4_MORE.items():
     S4[_k] = ((S4[_k][0] + " " + _v,) + tuple(S4[_k][1:])) if _k in S4 else (_v, None, None)
 for _pid, (_t, _n, _tech) in S4.items():
